@@ -14,8 +14,8 @@ A == Var("A", "A", "")
 B == Var("B", "B", "")
 I == Var("I", "I", "")
 J == Var("J", "J", "")
-L1 == 10   L2 == 20   L3 == 30   L4 == 40
-LineNos == <<10, 20, 30, 40>>
+L1 == 0    L2 == 20   L3 == 30   L4 == 40
+LineNos == <<0, 20, 30, 40>>     \* (0 is a line number like any other: the linker keeps labels below 0)
 PA == SPrint(<<PE(A), PSep(";")>>)
 PS(s) == SPrint(<<PE(LStr(s)), PSep(";")>>)
 
